@@ -123,8 +123,12 @@ static int same_double(double a, double b, double scale)
 {
     if (isnan(a) || isnan(b))
 	return isnan(a) && isnan(b);
+    if (a == b)
+	return 1;
     if (isinf(a) || isinf(b))
-	return a == b;
+	return 0;
+    if (!isfinite(scale))
+	scale = fabs(a);
     return fabs(a - b) <= 1e-9 * scale + 1e-300;
 }
 
